@@ -879,6 +879,101 @@ zone_job(int job)
 }
 #define NZONEJOBS	(NZN * NZDUR * NZMODE)
 
+/* ---- ZLINES: several duration lines on stdin with --from-zone ----
+ * dadd --from-zone Z DATE < lines: every line is added to the SAME reference date, so the
+ * output of a line must not depend on the lines before it.  All ordered pairs (quick) /
+ * triples (thorough) of lines over {1h 30m 1d 1w 1mo -1d 24h}, reference dates next to a DST
+ * change in two zones, with and without -z Z; oracle: the line's output in a run of its own. */
+static const char *const zl_let[] = {"1h", "30m", "1d", "1w", "1mo", "-1d", "24h"};
+static const char *const zl_unit[] = {"h", "m", "d", "w", "mo", "d", "h"};
+#define NZL	7
+static const char *const zl_ref[][2] = {
+	{"Europe/Berlin", "2024-03-30T12:00:00"}, {"Europe/Berlin", "2024-10-26T12:00:00"},
+	{"America/New_York", "2024-03-09T12:00:00"}, {"America/New_York", "2024-11-02T12:00:00"},
+};
+#define NZLREF	4
+
+static int
+zl_run(const char *zone, const char *ref, int withz, const int *ix, int n, char out[][48])
+{
+	char cmd[1024], lines[64] = "", zopt[96] = "";
+	FILE *pp;
+	int got = 0;
+
+	for (int i = 0; i < n; i++) {
+		strcat(lines, zl_let[ix[i]]);
+		strcat(lines, "\\n");
+	}
+	if (withz) {
+		snprintf(zopt, sizeof(zopt), " -z %s", zone);
+	}
+	snprintf(cmd, sizeof(cmd), "printf '%%b' '%s' | '%s/src/dadd' --from-zone %s%s %s 2>/dev/null", lines, ex.tree, zone, zopt, ref);
+	for (int i = 0; i < n; i++) {
+		out[i][0] = '\0';
+	}
+	if ((pp = popen(cmd, "r")) != NULL) {
+		while (got < n && fgets(out[got], 48, pp)) {
+			out[got][strcspn(out[got], "\n")] = '\0';
+			got++;
+		}
+		pclose(pp);
+	}
+	return got;
+}
+
+static void
+zlines_job(int job)
+{
+	int ri = job % NZLREF, withz = job / NZLREF % 2, first = job / NZLREF / 2;
+	const char *zone = zl_ref[ri][0], *ref = zl_ref[ri][1];
+	char single[NZL][48], out[3][48], one[1][48], zf[256], key[160], cas[64], cmd[512];
+	int len = ex.thorough ? 3 : 2;
+	EX_CTR(c_bind, "cli_binding_replays");
+	EX_CTR(c_zl, "duration lines on stdin with --from-zone compared with the line's own run");
+	EX_CTR(c_nozone, "skipped:zone section, zone file not installed");
+
+	if (ex.tree == NULL) {
+		return;
+	}
+	snprintf(zf, sizeof(zf), "/usr/share/zoneinfo/%s", zone);
+	if (access(zf, R_OK)) {
+		++*c_nozone;
+		return;
+	}
+	for (int i = 0; i < NZL; i++) {
+		int ix[1] = {i};
+		zl_run(zone, ref, withz, ix, 1, one);
+		snprintf(single[i], 48, "%s", one[0]);
+		++*c_bind;
+	}
+	for (int b = 0; b < NZL; b++) {
+		for (int c = 0; c < (len == 3 ? NZL : 1); c++) {
+			int ix[3] = {first, b, c};
+			zl_run(zone, ref, withz, ix, len, out);
+			++*c_bind;
+			for (int i = 0; i < len; i++) {
+				++*c_zl;
+				ex_outcome(ex_hash(out[i], strlen(out[i])));
+				if (strcmp(out[i], single[ix[i]])) {
+					char units[32] = "", lines[48] = "";
+					for (int k = 0; k < len; k++) {
+						strcat(units, k ? "," : "");
+						strcat(units, zl_unit[ix[k]]);
+						strcat(lines, zl_let[ix[k]]);
+						strcat(lines, "\\n");
+					}
+					snprintf(key, sizeof(key), "zlines zone=%s%s units=%s line=%d", zone, withz ? " -z" : "", units, i + 1);
+					snprintf(cas, sizeof(cas), "zlines %d", job);
+					snprintf(cmd, sizeof(cmd), "printf '%%b' '%s' | dadd --from-zone %s%s%s %s", lines, zone, withz ? " -z " : "", withz ? zone : "", ref);
+					ex_viol(key, ri, cas, cmd, "line %d ('%s') prints '%s' after the lines before it, '%s' in a run of its own", i + 1, zl_let[ix[i]],
+						out[i], single[ix[i]]);
+				}
+			}
+		}
+	}
+}
+#define NZLJOBS	(NZLREF * 2 * NZL)
+
 /* ---- binding ---- */
 struct bind_s {
 	int cal;
@@ -1136,6 +1231,13 @@ main(int argc, char *argv[])
 		if (!strncmp(ex.cas, "bind ", 5)) {
 			return replay_binding(ex.cas + 5);
 		}
+		if (!strncmp(ex.cas, "zlines ", 7)) {
+			int job = atoi(ex.cas + 7);
+			if (job >= 0 && job < NZLJOBS) {
+				zlines_job(job);
+			}
+			return ex_replay_result(ex.nviol != 0, "zlines job %d", job);
+		}
 		if (!strncmp(ex.cas, "zone ", 5)) {
 			int job = atoi(ex.cas + 5);
 			if (job >= 0 && job < NZONEJOBS) {
@@ -1204,7 +1306,9 @@ main(int argc, char *argv[])
 		"(calendar, order, units, sign of the day step, cropped) with all three observations in the detail; in bizda sequences through a weekend day are skipped. the documented "
 		"spellings nY nMO (upper/lower case, sign omitted) must parse like the canonical text. ZONE section (dadd binary, --from-zone Z -z Z, Z in Europe/Berlin Asia/Kolkata, every day of "
 		"2012 at 00:30 12:00 23:30): date units step the civil date and keep the time of day, time units add elapsed seconds (offset rule written out in the explorer), whether the dates "
-		"come as argument or on stdin (plain, -S, -E) and whether the durations come as arguments or on stdin. ywd/yd + months: not claimed (C04 names the week-based calendars for years only). "
+		"come as argument or on stdin (plain, -S, -E) and whether the durations come as arguments or on stdin. ZLINES: with --from-zone and the durations on stdin every line is added to the same "
+		"reference date: all ordered pairs (quick) / triples (thorough) of lines over {1h 30m 1d 1w 1mo -1d 24h} at four reference dates next to a DST change (Europe/Berlin, America/New_York, with and "
+		"without -z), each line's output must equal its output in a run of its own. ywd/yd + months: not claimed (C04 names the week-based calendars for years only). "
 		"non-trivial = the model crops, or the year changes");
 	ex_meta("bound", "%s tier: single steps: %s x ( +-[0,40] + {48,60,100,120,400,1200,4800} months; +-[0,8] + {40,100,400} quarters; +-[0,12] + {28,100,400} years ); "
 		"composition: %s x all (a,b) in [-%d,%d]^2 x 4 kinds; mixed sequences: %s x first step +-{1,2,3,6,11,12,13}mo, +-{1,2,3,4}y x second step +-{1,2,7,28,31}d, "
@@ -1321,6 +1425,11 @@ main(int argc, char *argv[])
 	for (int job = 0; job < NZONEJOBS && !ex_expired_now(); job++) {
 		if (ex_mine((uint64_t)job)) {
 			zone_job(job);
+		}
+	}
+	for (int job = 0; job < NZLJOBS && !ex_expired_now(); job++) {
+		if (ex_mine((uint64_t)job)) {
+			zlines_job(job);
 		}
 	}
 	{
